@@ -149,7 +149,10 @@ def finalAssert (m : Mat α) (r : List Nat × α) : Except Err (List Nat) :=
   | none => .error (.inner .emptyMax)
   | some orig => if r.2 ≤ orig then .ok r.1 else .error .notOptimised
 
-/-- `minimize_bandwidth(input_matrix, samples)`. `rnd` = the answers of `torch.randperm`,
+/-- `minimize_bandwidth(input_matrix, samples)`. Remark (purity): `absMat m` is a *new* value — the model
+cannot express `input_matrix.abs_()` (in-place) vs `torch.abs(input_matrix)`; that the real functions
+leave their argument tensors bit-identical is checked on every call by harness/props/c32.py and, end to
+end on `SequenceData.interaction_matrix`, by c03.py. `rnd` = the answers of `torch.randperm`,
 `tape` = the answers of `minimize_bandwidth_above_threshold`, in call order. -/
 def minimizeBandwidth (atol rtol : α) (nThr samples : Nat) (m : Mat α)
     (rnd tape : List (List Nat)) : Except Err (List Nat) :=
